@@ -282,7 +282,6 @@ _p("C08", modules=["prefix", "framing", "tcp_output", "quic_output", "main_run",
    design_ref="DESIGN.md 4 C08", explanation="Causality of the fold is established by frame obligations and a bounded product contract; the crypto step is per record (C01) and the lifting is on paper.",
    assumptions=[], trusted_base=[], bounded=BOUNDED_FRAMING, not_under_contract=[])
 
-_p("C02", modules=["quic_session_c", "quic_output", "demux", "quic_pkn", "keys", "quic_varint", "quic_frame"], level="other", level_text="in progress", level_note="in progress", explanation="in progress")
 
 _p("C12", modules=["container", "main_run"], level="other",
    technique="contracts on the real Reader checked exhaustively within a stated bound over a byte-level file model; dpkt block classes as assumed records",
